@@ -56,6 +56,13 @@ structure Quirks where
   modNonPow2 : Bool := false
   /-- `Qchar.eq/neq` compare only the zipped prefix of operands of different widths -/
   charEqZip : Bool := false
+  /-- `translate_statement(Assign)`: a tuple-typed value keeps the flat bit list of `Arg.to_exp`, so the
+  new variable's bits are named `v.0 … v.n` instead of by type (`v.1.0`); later `v[i]` reads undefined symbols -/
+  tupleAssignFlat : Bool := false
+  /-- `translate_ast` accepts a body that never binds `_ret` -/
+  noReturnAccepted : Bool := false
+  /-- `translate_expression(Subscript)`: a negative constant index passes the bound test (`int(i) < size`) -/
+  negIndexAccepted : Bool := false
   deriving Repr, DecidableEq, Inhabited
 
 def Quirks.none : Quirks := {}
@@ -84,6 +91,9 @@ def Quirks.ofList (l : List String) : Quirks :=
     exportParamTruthy := l.contains "exportParamTruthy"
     cirqNopRaises := l.contains "cirqNopRaises"
     modNonPow2 := l.contains "modNonPow2"
-    charEqZip := l.contains "charEqZip" }
+    charEqZip := l.contains "charEqZip"
+    tupleAssignFlat := l.contains "tupleAssignFlat"
+    noReturnAccepted := l.contains "noReturnAccepted"
+    negIndexAccepted := l.contains "negIndexAccepted" }
 
 end QV
